@@ -5,7 +5,7 @@
 From RV Require Import Base.
 From RV.Model Require Import Utf8 Indexer CodePointSet Insn IR Optimizer Unfold Emit Pike BT Exec.
 From RV.Spec Require Import IRSem IRShape.
-From RV.Proofs Require Import NodeInd PikeCorrect PikeTop BTDen BTShape ListAux IRGroups IRLen BTCorrect.
+From RV.Proofs Require Import NodeInd PikeCorrect PikeTop BTDen BTShape ListAux IRGroups IRLen BTCorrect StartPred.
 
 Section Top.
   Variable ix : indexer.
@@ -109,6 +109,149 @@ Section Top.
       cbn [bt_search]. rewrite (find_bytes_trivial p Hp). unfold bt_try. rewrite Hg.
       rewrite (Hrun pfuel n budget) by lia. unfold bt_success, bt_result_of.
       destruct (next_start_after ix h p (fst y)); reflexivity.
+  Qed.
+
+  (* ---- the search loop with a prefilter ---- *)
+  Variable test : list N -> bool.
+
+  (* q is visited by a search that starts at p and steps right at most [fuel] times *)
+  Fixpoint on_walk (fuel : nat) (p q : nat) : Prop :=
+    match fuel with
+    | O => False
+    | S f => q = p \/ match ix_next_right_pos ix h p with Ok (Some p') => on_walk f p' q | _ => False end
+    end.
+
+  (* what the prefilter has to satisfy along the walk: it accepts every position where an attempt succeeds, it
+     does not fire between two visited positions, and the walk ends at the end of the haystack *)
+  Definition pref_ok (fuel tries : nat) (p : nat) : Prop :=
+    (forall q G l, on_walk tries p q -> ir_results ix (p_unicode prog) utf16 h fuel n0 true (q, G) = Some l -> l <> [] ->
+                   test (skipn q h) = true) /\
+    (forall q q' i, on_walk tries p q -> ix_next_right_pos ix h q = Ok (Some q') -> (q < i < q')%nat -> test (skipn i h) = false) /\
+    (forall q, on_walk tries p q -> ix_next_right_pos ix h q = Ok None -> q = length h) /\
+    (forall q q', on_walk tries p q -> ix_next_right_pos ix h q = Ok (Some q') -> (q < q')%nat).
+
+  Lemma on_walk_step t p p' q : ix_next_right_pos ix h p = Ok (Some p') -> on_walk t p' q -> on_walk (S t) p q.
+  Proof. intros E H. cbn [on_walk]. right. rewrite E. exact H. Qed.
+
+  Lemma pref_ok_step fuel t p p' : ix_next_right_pos ix h p = Ok (Some p') -> pref_ok fuel (S t) p -> pref_ok fuel t p'.
+  Proof.
+    intros E (H1 & H2 & H3 & H4). repeat split.
+    - intros q G l Hq. apply H1. eapply on_walk_step; eauto.
+    - intros q q' i Hq. apply H2. eapply on_walk_step; eauto.
+    - intros q Hq. apply H3. eapply on_walk_step; eauto.
+    - intros q q' Hq. apply H4. eapply on_walk_step; eauto.
+  Qed.
+
+  Lemma find_from_past f q : (length h < q)%nat -> find_from test f h q = None.
+  Proof. intros Hq. destruct f; [reflexivity|]. cbn [find_from]. replace (length h <? q)%nat with true by (symmetry; apply Nat.ltb_lt; lia). reflexivity. Qed.
+
+  (* find_from does not depend on its fuel once the fuel covers the rest of the haystack *)
+  Lemma find_from_fuel : forall f1 f2 p, (length h - p < f1)%nat -> (length h - p < f2)%nat ->
+    find_from test f1 h p = find_from test f2 h p.
+  Proof.
+    pose proof find_from_past as Hpast.
+    induction f1 as [|f1 IH]; intros f2 p H1 H2; [lia|]. destruct f2 as [|f2]; [lia|]. cbn [find_from].
+    destruct (length h <? p)%nat eqn:E; [reflexivity|]. apply Nat.ltb_ge in E.
+    destruct (test (skipn p h)); [reflexivity|].
+    destruct (Nat.eq_dec p (length h)) as [->|Hne]; [rewrite !Hpast by lia; reflexivity|]. apply IH; lia.
+  Qed.
+
+  Lemma find_from_skip : forall d f p, (forall i, (p <= i < p + d)%nat -> test (skipn i h) = false) ->
+    (p + d <= length h)%nat -> (length h - p < f)%nat ->
+    find_from test f h p = find_from test f h (p + d).
+  Proof.
+    induction d as [|d IH]; intros f p Hno Hle Hf; [rewrite Nat.add_0_r; reflexivity|].
+    destruct f as [|f]; [lia|].
+    assert (Hmiss : find_from test (S f) h p = find_from test f h (S p)).
+    { cbn [find_from]. replace (length h <? p)%nat with false by (symmetry; apply Nat.ltb_ge; lia).
+      rewrite (Hno p) by lia. reflexivity. }
+    rewrite Hmiss.
+    rewrite (IH f (S p)); [|intros i Hi; apply Hno; lia|lia|lia].
+    replace (S p + d)%nat with (p + S d)%nat by lia. apply find_from_fuel; lia.
+  Qed.
+
+  Lemma find_bytes_hit p : (p <= length h)%nat -> test (skipn p h) = true -> find_bytes test h p = Ok (Some p).
+  Proof.
+    intros Hp Ht. unfold find_bytes. replace (length h <? p)%nat with false by (symmetry; apply Nat.ltb_ge; lia).
+    cbn [find_from]. replace (length h <? p)%nat with false by (symmetry; apply Nat.ltb_ge; lia). rewrite Ht. reflexivity.
+  Qed.
+
+  Lemma find_bytes_skip p p' : (p <= p')%nat -> (p' <= length h)%nat ->
+    (forall i, (p <= i < p')%nat -> test (skipn i h) = false) -> find_bytes test h p = find_bytes test h p'.
+  Proof.
+    intros H1 H2 Hno. unfold find_bytes.
+    replace (length h <? p)%nat with false by (symmetry; apply Nat.ltb_ge; lia).
+    replace (length h <? p')%nat with false by (symmetry; apply Nat.ltb_ge; lia).
+    f_equal. replace p' with (p + (p' - p))%nat by lia. apply find_from_skip; [|lia|lia].
+    intros i Hi. apply Hno. lia.
+  Qed.
+
+  Lemma find_bytes_end : test (skipn (length h) h) = false -> find_bytes test h (length h) = Ok None.
+  Proof.
+    intro Ht. unfold find_bytes. rewrite Nat.ltb_irrefl. cbn [find_from]. rewrite Nat.ltb_irrefl, Ht.
+    rewrite find_from_past by lia. reflexivity.
+  Qed.
+
+  Theorem bt_search_pref fuel ngroups : forall tries p r st,
+    ir_search ix (p_unicode prog) utf16 h fuel n0 ngroups tries p = Some r ->
+    (ng <= ngroups)%nat -> walk_ok ix h tries p = true -> pref_ok fuel tries p ->
+    bx_groups st = repeat gd_empty ngroups -> (es_next_loop es' <= length (bx_loops st))%nat ->
+    exists f0 k st', forall kk pfuel n budget, (tries <= kk)%nat -> (f0 <= pfuel)%nat -> n + k <= budget ->
+      bt_search ix prog h budget pfuel test kk st p n = (bt_result_of r st', n + k).
+  Proof.
+    induction tries as [|t IH]; intros p r st Hs Hngr Hw Hpref Hg Hlen; [discriminate|].
+    cbn [walk_ok] in Hw. apply andb_true_iff in Hw as [Hp Hw]. apply Nat.leb_le in Hp.
+    cbn [ir_search] in Hs.
+    destruct (ir_results ix (p_unicode prog) utf16 h fuel n0 true (p, repeat gd_empty ngroups)) as [l|] eqn:Er; [|discriminate].
+    assert (Hng' : (ng <= length (repeat gd_empty ngroups))%nat) by (rewrite repeat_length; exact Hngr).
+    assert (Hpp : on_walk (S t) p p) by (left; reflexivity).
+    destruct (test (skipn p h)) eqn:Et.
+    - (* the prefilter accepts p: attempt here, as without a prefilter *)
+      destruct (bt_attempt fuel p _ l (bx_loops st) Er Hng' Hlen) as (o & Hd & Ho).
+      destruct (bden_bt_run ix prog h true _ o Hd) as (f1 & k1 & Hrun).
+      destruct l as [|y l'].
+      + destruct Ho as (L' & -> & HL').
+        destruct (ix_next_right_pos ix h p) as [e|[p'|]] eqn:En; [discriminate| |].
+        * destruct (IH p' r (mkBX L' (repeat gd_empty ngroups)) Hs Hngr Hw (pref_ok_step fuel t p p' En Hpref) eq_refl) as (f2 & k2 & st' & Hrest).
+          { simpl. lia. }
+          exists (Nat.max f1 f2), (k1 + k2), st'. intros kk pfuel n budget Hk Hf Hb.
+          destruct kk as [|kk]; [lia|].
+          cbn [bt_search]. rewrite (find_bytes_hit p Hp Et). unfold bt_try. rewrite Hg.
+          rewrite (Hrun pfuel n budget) by lia. rewrite En.
+          rewrite (Hrest kk pfuel (n + k1) budget) by lia. f_equal. lia.
+        * inversion Hs; subst r. exists f1, k1, (mkBX L' (repeat gd_empty ngroups)). intros kk pfuel n budget Hk Hf Hb.
+          destruct kk as [|kk]; [lia|].
+          cbn [bt_search]. rewrite (find_bytes_hit p Hp Et). unfold bt_try. rewrite Hg.
+          rewrite (Hrun pfuel n budget) by lia. rewrite En. reflexivity.
+      + destruct Ho as (L1 & -> & HL1). inversion Hs; subst r.
+        exists f1, k1, (mkBX L1 (repeat gd_empty (length (snd y)))). intros kk pfuel n budget Hk Hf Hb.
+        destruct kk as [|kk]; [lia|].
+        cbn [bt_search]. rewrite (find_bytes_hit p Hp Et). unfold bt_try. rewrite Hg.
+        rewrite (Hrun pfuel n budget) by lia. unfold bt_success, bt_result_of.
+        destruct (next_start_after ix h p (fst y)); reflexivity.
+    - (* the prefilter rejects p: no attempt at p can succeed *)
+      destruct Hpref as (Hsound & Halign & Hend & Hstrict).
+      assert (Hl : l = []).
+      { destruct l as [|y l']; [reflexivity|]. exfalso.
+        assert (Ht : test (skipn p h) = true) by (eapply Hsound; [exact Hpp|exact Er|discriminate]).
+        rewrite Et in Ht. discriminate. }
+      subst l.
+      destruct (ix_next_right_pos ix h p) as [e|[p'|]] eqn:En; [discriminate| |].
+      + assert (Hp' : (p' <= length h)%nat).
+        { destruct t as [|t']; [discriminate Hs|]. cbn [walk_ok] in Hw. apply andb_true_iff in Hw as [Hw1 _]. apply Nat.leb_le in Hw1. exact Hw1. }
+        pose proof (Hstrict p p' Hpp En) as Hgt.
+        destruct (IH p' r st Hs Hngr Hw (pref_ok_step fuel t p p' En (conj Hsound (conj Halign (conj Hend Hstrict)))) Hg Hlen) as (f2 & k2 & st' & Hrest).
+        exists f2, k2, st'. intros kk pfuel n budget Hk Hf Hb.
+        destruct kk as [|kk]; [lia|].
+        assert (Hfb : find_bytes test h p = find_bytes test h p').
+        { apply find_bytes_skip; [lia|exact Hp'|]. intros i Hi.
+          destruct (Nat.eq_dec i p) as [->|Hne]; [exact Et|]. eapply (Halign p p' i Hpp En). lia. }
+        specialize (Hrest (S kk) pfuel n budget ltac:(lia) Hf Hb).
+        cbn [bt_search] in Hrest |- *. rewrite Hfb. exact Hrest.
+      + inversion Hs; subst r. pose proof (Hend p Hpp En) as Hpe. subst p.
+        exists 0%nat, 0, st. intros kk pfuel n budget Hk Hf Hb.
+        destruct kk as [|kk]; [lia|].
+        cbn [bt_search]. rewrite (find_bytes_end Et). simpl. f_equal. lia.
   Qed.
 End Top.
 
